@@ -120,7 +120,7 @@ func c05cliCases(thorough bool, yield func(k c05cliCase)) {
 				name string
 				bit  uint8
 			}{{"df", zzref.IPFlagDF}, {"mf", zzref.IPFlagMF}, {"evil", zzref.IPFlagReserved}}
-			for sub := 1; sub < 8; sub++ {
+			for sub := 0; sub < 8; sub++ { // sub 0: the empty flag set, requested with --ipflags ""
 				var names []string
 				var bits uint8
 				for i, f := range ipf {
@@ -180,7 +180,7 @@ func c05cliCases(thorough bool, yield func(k c05cliCase)) {
 func verifC05CLI(c *drv.Ctx) {
 	defer vE2ECleanup()
 	c.R.Rule = "the real commands run end-to-end on the virtual wire against one target (10.0.1.3, known to the ARP cache; Ethernet and VPN link mode): `tcp --flags S` for every subset S of the 9 flag names x ports {1, 443, 65535}, the four tcp sub-commands; " +
-		"icmp and udp with every --ttl (256), every --ipproto (256), every non-empty --ipflags subset, --iplen {1,19,20,28,29,1500,65535}, --payload of {1,2,3,47,48,49,255,1472} bytes, all options at once; icmp with every --type x --code {0,255} and --code 1..254 x type {0,8,13} " +
+		"icmp and udp with every --ttl (256), every --ipproto (256), every --ipflags subset (the empty one included), --iplen {1,19,20,28,29,1500,65535}, --payload of {1,2,3,47,48,49,255,1472} bytes, all options at once; icmp with every --type x --code {0,255} and --code 1..254 x type {0,8,13} " +
 		"(quick: VPN mode and the non-443 ports are strided). The one frame sent is judged by harness/ref C05Check: every requested field verbatim, addresses and MACs of the route/cache, checksums, lengths, ranges. non-trivial = every case (distinct command line)"
 	idx := 0
 	c05cliCases(c.Thorough(), func(k c05cliCase) {
